@@ -233,8 +233,11 @@ def match_known(entries, sig, case_enc=None):
         kp = m.get("klass_prefix")
         if kp is not None and not klass.startswith(kp):
             continue
-        if m.get("facet") is None and m.get("clause") is None and kl is None and kp is None:
-            continue  # an entry without predicate suppresses nothing
+        kc = m.get("klass_contains")
+        if kc is not None and kc not in klass:
+            continue
+        if kl is None and kp is None and kc is None:
+            continue  # an entry without a structural predicate suppresses nothing
         return e
     return None
 
